@@ -1373,6 +1373,16 @@ fn job_net_feedback(rng: &mut Rng, variant: usize, kmax: usize) -> Fals {
         if !b.push_block(rng, ls, loops) {
             continue;
         }
+        // a second block (other depth, other loop count): the backward pass must hand every block
+        // the tensors recorded for THAT block
+        let two_blocks = !with_pool && variant % 4 == 2;
+        if two_blocks {
+            let nl2 = if nl == 1 { 2 } else { 1 };
+            let ls2 = block_layers(rng, b.cur(), nl2, acts, false);
+            if !b.push_block(rng, ls2, 1 + (loops % 3)) {
+                continue;
+            }
+        }
         if follow && !{ let o_ = rng.range(1, 4); let l_ = rdense(rng, o_, acts); b.push(rng, l_) } {
             continue;
         }
@@ -1383,7 +1393,9 @@ fn job_net_feedback(rng: &mut Rng, variant: usize, kmax: usize) -> Fals {
         let bpos = if prefix { 1 } else { 0 };
         let key = |a: PAddr, _: &'static str| {
             let role = if a.layer == bpos { "block-params" } else if a.layer < bpos { "params-of-earlier-layers" } else { "params-of-later-layers" };
-            Some(if with_pool { format!("net/feedback-with-1x1-maxpool/{}", role) } else { format!("net/feedback/loops={}/{}", loops, role) })
+            Some(if with_pool { format!("net/feedback-with-1x1-maxpool/{}", role) }
+                 else if two_blocks { format!("net/two-feedback-blocks/{}", role) }
+                 else { format!("net/feedback/loops={}/{}", loops, role) })
         };
         if check_net_grads(&mut f, rng, &spec, &x, &y, kmax, &key) {
             break;
